@@ -35,6 +35,10 @@ pub struct Extras {
     pub blkfoo: bool,
     pub dir_named_like_blk: bool,
     pub foreign_keys: bool,
+    /// some blk files live elsewhere behind absolute symlinks; dangling / looping / directory
+    /// symlinks with blk-like names that no record refers to
+    #[serde(default)]
+    pub symlinks: bool,
 }
 
 #[derive(Clone, Debug, PartialEq, Eq, Serialize, Deserialize)]
@@ -155,7 +159,7 @@ impl LayoutSpec {
                 segs.extend(self.gap_segs(&self.gaps[*i % self.gaps.len()], magic, &built.blocks));
                 segs.push(Seg::Blk { bytes: built.blocks[*i].1.ser(), rec: Some(*i), magic });
             }
-            plan.files.push(PFile { number: numbers[slot], name: blk_name(numbers[slot], self.files[slot].pad), segs });
+            plan.files.push(PFile { number: numbers[slot], name: blk_name(numbers[slot], self.files[slot].pad), segs, linked: self.extras.symlinks && slot % 2 == 1 });
         }
         plan.xor = self.xor.clone();
         plan.ldb_small_buffer = self.ldb_small;
@@ -204,6 +208,13 @@ impl LayoutSpec {
                 plan.extra_files.push((format!("blk{:05}.dat.tmp", n), vec![0x46; 60]));
                 plan.extra_files.push((format!("blk{:05}.DAT", n), vec![0x47; 60]));
             }
+        }
+        if self.extras.symlinks {
+            plan.links.push((blk_name(free(9101), 5), "/nonexistent/target/blk09101.dat".into()));
+            let l = blk_name(free(9102), 5);
+            plan.links.push((l.clone(), l));
+            plan.links.push((blk_name(free(9103), 5), "/tmp".into()));
+            plan.links.push(("blkdangling.dat".into(), "nowhere".into()));
         }
         if self.extras.dir_named_like_blk {
             plan.extra_dirs.push(blk_name(free(8888), 5));
@@ -330,7 +341,7 @@ pub fn layout(tier: crate::gen::Tier, with_xor: bool, big_holes: bool) -> BS<Lay
                 gaps,
                 lead,
                 xor: xor.clone(),
-                extras: Extras { rev_files: flags[0], unreferenced_blk: flags[1], blkfoo: flags[2], dir_named_like_blk: flags[3], foreign_keys: flags[4] },
+                extras: Extras { rev_files: flags[0], unreferenced_blk: flags[1], blkfoo: flags[2], dir_named_like_blk: flags[3], foreign_keys: flags[4], symlinks: flags[7] },
                 ldb_small: flags[5],
                 ldb_reopens: reopens,
                 ldb_compact: flags[6],
